@@ -4,6 +4,7 @@ import Std.Data.HashMap
 import LZ4V.Model.FrameC
 import LZ4V.Model.FrameD
 import LZ4V.Spec.FrameLExec
+import LZ4V.Model.FrameFast
 /-!
 # Judge for frame records
 
@@ -53,6 +54,37 @@ def judgeFrameOps (r : Rec) (parsedSizes : List Nat) (bs : Nat) (autoFlush : Boo
       return [("frame_block_structure_differs_from_model", s!"model blocks {sizes.take 12} real blocks {parsedSizes.take 12} (counts {sizes.length} vs {parsedSizes.length})")]
     return []
 
+/-- record kind 5 (fresh context, fast level, independent blocks, no dictionary, compressed updates only): the end-to-end model
+    `Model/FrameFast.lean` (proved to parse back to the input) must produce the very same frame bytes -/
+def judgeFrameModel (r : Rec) : List (String × String) × List String := Id.run do
+  if r.args.size < 15 then return ([], [])
+  let input := r.bytes 12
+  let frame := r.bytes 13
+  let ops := r.bytes 14
+  if ops.size == 0 || input.size > 300000 || frame.size == 0 then return ([], ["framemodel.skipped"])
+  let bsidReq := r.nat 1
+  let p : LZ4V.Model.FrameFast.Prefs := LZ4V.Model.FrameFast.Prefs.mk (if bsidReq == 0 then 4 else bsidReq) (r.nat 4 == 1) (r.nat 3 == 1) (rdLE (r.bytes 5) 0 8) (r.nat 6) (r.int 7) (r.nat 8 != 0)
+  let inp := input.toList
+  let mut pc := 0
+  let mut pos := 0
+  let mut hist : List LZ4V.Model.FrameC.Op := []
+  while pc < ops.size do
+    let code := ops.get! pc
+    if code == 70 then
+      hist := .flush :: hist; pc := pc + 1
+    else
+      let n := rdLE ops (pc+1) 4
+      if code == 117 then return ([], ["framemodel.skipped"])      -- an uncompressed update: not modelled
+      hist := .update ((inp.drop pos).take n) false :: hist
+      pos := pos + n; pc := pc + 5
+  match LZ4V.Model.FrameFast.frameOfOps LZ4V.Spec.FrameL.xxhEnv (fun s b => LZ4V.Model.Fast.realHash s b) p hist.reverse with
+  | none => return ([("model_frame_bytes_differs", "the model refuses this call history")], [])
+  | some f =>
+    if f != frame.toList then
+      let d := (List.range (min f.length frame.size)).find? (fun i => f.getD i 0 != frame.get! i)
+      return ([("model_frame_bytes_differs", s!"model frame {f.length} bytes, real frame {frame.size} bytes, first difference at {d} (bsid={p.bsid} level={p.level} bcrc={p.blockChecksum} ccrc={p.contentChecksum} csize={p.contentSize} dictID={p.dictID} autoFlush={p.autoFlush})")], [])
+    return ([], ["framemodel.same"])
+
 def judgeFrame (blobs : Std.HashMap Nat ByteArray) (r : Rec) : Verdict := Id.run do
   let kind := r.nat 0
   let bsidReq := r.nat 1
@@ -90,9 +122,9 @@ def judgeFrame (blobs : Std.HashMap Nat ByteArray) (r : Rec) : Verdict := Id.run
     let h := f.hdr
     -- header fields requested by the preferences
     let bsidDefault := if bsidReq == 0 then 4 else bsidReq
-    let wantBsid := if kind == 0 then bsidDefault else (LZ4V.Gen.LZ4F_optimalBSID bsidDefault input.size).toNat
+    let wantBsid := if kind == 0 || kind == 5 then bsidDefault else (LZ4V.Gen.LZ4F_optimalBSID bsidDefault input.size).toNat
     if h.bsid != wantBsid then v := { v with fails := ("header_block_size_id", s!"got {h.bsid} want {wantBsid}") :: v.fails }
-    let wantIndep := if kind == 0 then blockMode == 1 else (blockMode == 1 || input.size ≤ blockSizeOf wantBsid)
+    let wantIndep := if kind == 0 || kind == 5 then blockMode == 1 else (blockMode == 1 || input.size ≤ blockSizeOf wantBsid)
     if h.blockIndep != wantIndep then v := { v with fails := ("header_block_mode", s!"got indep={h.blockIndep} want {wantIndep}") :: v.fails }
     if h.contentChecksum != (ccFlag == 1) then v := { v with fails := ("header_content_checksum_flag", "") :: v.fails }
     if h.blockChecksum != (bcFlag == 1) then v := { v with fails := ("header_block_checksum_flag", "") :: v.fails }
@@ -104,7 +136,7 @@ def judgeFrame (blobs : Std.HashMap Nat ByteArray) (r : Rec) : Verdict := Id.run
     for bi in f.blocks do
       if !bi.raw && bi.csize ≥ bi.dsize then
         v := { v with fails := ("compressed_block_not_smaller", s!"csize={bi.csize} dsize={bi.dsize}") :: v.fails }
-    if kind == 0 then
+    if kind == 0 || kind == 5 then
       for x in judgeFrameOps r (f.blocks.toList.map (·.dsize)) (blockSizeOf h.bsid) (r.nat 8 != 0) do v := { v with fails := x :: v.fails }
     let nraw := (f.blocks.filter (·.raw)).size
     v := { v with tags := [s!"kind.{kind}", s!"bsid.{h.bsid}", if h.blockIndep then "indep" else "linked", if h.blockChecksum then "bcrc" else "nobcrc",
@@ -112,6 +144,9 @@ def judgeFrame (blobs : Std.HashMap Nat ByteArray) (r : Rec) : Verdict := Id.run
                             if f.blocks.size == 0 then "blocks.0" else if f.blocks.size == 1 then "blocks.1" else "blocks.many",
                             if nraw == 0 then "raw.none" else if nraw == f.blocks.size then "raw.all" else "raw.some",
                             if dictSize == 0 then "nodict" else "dict"] }
+    if kind == 5 then
+      let m := judgeFrameModel r
+      v := { v with fails := m.1 ++ v.fails, tags := m.2 ++ v.tags }
   return v
 
 def skippableLen (b : ByteArray) : Option Nat :=
